@@ -58,6 +58,15 @@ inline void fillHeader(Tecmp& t, Rng& r)
 }
 
 // independent parse: what must come out of this frame
+// The kind of a status message is its message type; the data type field of a status message is one of the "header fields
+// arbitrary" of C15's quantifier, so every value must still convert - except the two byte orders of the library's
+// "invalid" marker 0xFF (wire 00 FF and wire FF 00), on which the statement is silent: those run under the weaker
+// oracle "no packet or the correct packet".
+inline bool statusDataTypeSettled(uint16_t dataType)
+{
+    return dataType != 0x00FF && dataType != 0xFF00;
+}
+
 inline void expectation(TCase& tc)
 {
     const Bytes& p = tc.payload;
@@ -134,7 +143,7 @@ inline void expectation(TCase& tc)
         e.sw = "v" + std::to_string(p[13]) + "." + std::to_string(p[14]) + "." + std::to_string(p[15]);
         e.hw = "v" + std::to_string(p[16]) + "." + std::to_string(p[17]);
         tc.exp.push_back(e);
-        tc.want = h.dataType == 0 ? W_PACKETS : W_NONE_OR_CORRECT;
+        tc.want = statusDataTypeSettled(h.dataType) ? W_PACKETS : W_NONE_OR_CORRECT;
         return;
     }
     // bus status
@@ -153,7 +162,7 @@ inline void expectation(TCase& tc)
         tc.exp.push_back(e);
     }
     bool tail = (p.size() - 12) % 12 != 0;  // an incomplete entry at the end: not well-formed
-    tc.want = (h.dataType == 0 && !tail) ? W_PACKETS : W_NONE_OR_CORRECT;
+    tc.want = (statusDataTypeSettled(h.dataType) && !tail) ? W_PACKETS : W_NONE_OR_CORRECT;
 }
 
 inline std::string comparePacket(const ASAM::CMP::Packet& p, const Tecmp& h, const ExpPacket& e, std::string& detail)
